@@ -594,12 +594,22 @@ fn header_value(head: &[u8], name: &str) -> Option<String> {
     })
 }
 
+/// the HTTP/2 variant of ClientStalled (a response of a few kilobytes waiting in sozu for flow-control credit):
+/// the backend announces `Connection: close` and closes after its last byte, so that at the stop nothing but
+/// sozu's own buffer holds the rest of the response (the stream is no longer linked to a backend)
+fn closes_after(r: &Req) -> bool {
+    r.phase == Phase::ClientStalled && r.resp_body < 100_000
+}
+
 fn response_wire(sh: &Shared, id: usize, r: &Req) -> Vec<u8> {
     let body = content(resp_seed(sh.seed, id), r.resp_body);
     let framing = if r.chunked_resp { h1::BodyFraming::Chunked(vec![1 + r.resp_body / 3, 7, 4096]) } else { h1::BodyFraming::ContentLength };
     let (extra, wire) = h1::encode_body(&body, &framing, &[]);
     let mut hs = vec![("x-lab-resp".to_string(), id.to_string())];
     hs.extend(extra);
+    if closes_after(r) {
+        hs.push(("Connection".to_string(), "close".to_string()));
+    }
     let mut v = h1::build_head("HTTP/1.1 200 OK", &hs);
     v.extend_from_slice(&wire);
     v
@@ -711,6 +721,9 @@ fn serve_h1_backend(mut s: TcpStream, sh: Arc<Shared>) {
             }
         }
         sh.bk(id, |e| e.written_at = Some(Instant::now()));
+        if closes_after(&r) {
+            return;
+        }
     }
 }
 
@@ -2572,7 +2585,7 @@ fn verdict(case: &Case, sessions: &[Session], exchanges: &[(usize, usize, &'stat
 }
 
 pub fn rule() -> &'static str {
-    "one fresh live worker per scenario with an HTTP listener, an HTTPS listener (ALPN h2 + http/1.1, h2_graceful_shutdown_deadline_seconds = 5, sozu's default) and a TCP listener, all bound by the worker; clusters c0 (HTTP/1.1 mock backend), c1 (h2c mock backend), cws (HTTP/1.1 mock backend answering 101, then relaying opaque bytes), t0 (TCP relay backend); front/back/request timeouts 15 s, above anything a scenario does. 1..6 sessions of generated kinds, each brought into its phase and observed there before the stop: (H2) an HTTP/2 connection (TLS) toward c0 or c1 with 1..3 streams, each: HEADERS without END_STREAM and a part of the body sent, rest 0..300 ms after the stop [excluded, known finding]; request complete and the backend answering 100..800 ms after the stop; response head and first piece at the client, the other pieces over 200..900 ms after the stop; stream finished (all finished: idle connection); a stream alone on its connection whose whole response (4100..13100 bytes) the HTTP/1.1 backend has written while the client grants 4000 bytes of stream window and no more until 50..600 ms after the stop (the rest waits in sozu, the backend is done); optionally one more stream opened as soon as the stop is acknowledged (its HEADERS cross the GOAWAY), and the client either closes once it holds a GOAWAY and has no open stream or waits for sozu; (TLS-H1 / H1) an HTTP/1.1 connection on the HTTPS or the plain listener in the phases of `softstop` (part of the body sent, backend waiting, response in progress, Expect: 100-continue, idle keep-alive, client stalled under a 6..12 MB response [HTTPS: excluded, known finding]), 30% second on their connection; (TCP) a session through the TCP listener after a first exchange: the client's message (2..40000 bytes) at the backend which answers 100..800 ms after the stop, or half of it at the backend, the other half 0..300 ms and the answer 100..800 ms after the stop (bytes under way in both directions), or idle; (WS / WSS) an HTTP/1.1 connection (plain or TLS) upgraded with 101 and exchanging WebSocket frames in the same three shapes, or the upgrade request itself at the backend which answers 101 100..800 ms after the stop. Then SoftStop, or (35%) ReturnListenSockets + receive_listeners + SoftStop. Oracle: (1) every HTTP/1.1 request, HTTP/2 stream and upgrade request in flight at the stop gets the backend's status (200 / 101) and exact body, HTTP/2 with END_STREAM and no RST_STREAM; the backend got the exact request body once, on its cluster's backend; delays stay below 1 s, far inside the 5 s graceful deadline, so the deadline never excuses a cut; (1b) an HTTP/2 connection with a stream open at the stop receives at least one GOAWAY before it ends (for an idle connection both a GOAWAY and a bare close are admitted; whether the GOAWAY precedes the end of the last stream is measured, not judged); (1c) the stream opened after the acknowledgement may be served (then 200 and exact body), answered by another status, refused (RST_STREAM, any code, before it reached a backend), or left unanswered if it never reached a backend; once it reached a backend it must not be reset or dropped; (2) SoftStop: 0..n Processing, exactly one final Ok, not read before the last backend began to write the last piece of an in-flight HTTP response; (3) the worker thread ends within graceful deadline + 2 s of the moment the last session ended on its client's side (clients of opaque sessions hang up by themselves at most 1.5 s after the last scheduled byte); (4) after the first acknowledgement a new connection to any of the three listeners is refused or gets no byte back (HTTP request, TLS ClientHello, TCP bytes) and nothing of it reaches a backend; with a hand-over the three listeners come out of the SCM socket with their kind and address, accept, and are never refused; (5) no worker panic. (6) Opaque sessions (TCP, upgraded connections): the property speaks of requests, an opaque byte stream has none, and sozu documents that such a session is closed at once by a soft stop: closing it at the stop and relaying on are both admitted, as are FIN, RST or a TLS end without close_notify toward the client; demanded is only that each peer receives an exact prefix of what the other sent (nothing altered, duplicated or reordered) and that, when both peers see an orderly end (FIN / close_notify, no reset, no write error), every byte a peer had written before the SoftStop command was sent has arrived at the other (bytes written later may meet a session already closed and prove nothing). How each side saw the end is recorded as classes. A failure is re-run twice on fresh workers and reported only if it reproduces (else flaky_unconfirmed). Non-trivial: at least one session had an unfinished request / stream / pending answer when the stop was acknowledged."
+    "one fresh live worker per scenario with an HTTP listener, an HTTPS listener (ALPN h2 + http/1.1, h2_graceful_shutdown_deadline_seconds = 5, sozu's default) and a TCP listener, all bound by the worker; clusters c0 (HTTP/1.1 mock backend), c1 (h2c mock backend), cws (HTTP/1.1 mock backend answering 101, then relaying opaque bytes), t0 (TCP relay backend); front/back/request timeouts 15 s, above anything a scenario does. 1..6 sessions of generated kinds, each brought into its phase and observed there before the stop: (H2) an HTTP/2 connection (TLS) toward c0 or c1 with 1..3 streams, each: HEADERS without END_STREAM and a part of the body sent, rest 0..300 ms after the stop [excluded, known finding]; request complete and the backend answering 100..800 ms after the stop; response head and first piece at the client, the other pieces over 200..900 ms after the stop; stream finished (all finished: idle connection); a stream alone on its connection whose whole response (4100..13100 bytes) the HTTP/1.1 backend has written (`Connection: close`, then it closes) while the client grants 4000 bytes of stream window and no more until 50..600 ms after the stop (the rest waits in sozu, the backend is done); optionally one more stream opened as soon as the stop is acknowledged (its HEADERS cross the GOAWAY), and the client either closes once it holds a GOAWAY and has no open stream or waits for sozu; (TLS-H1 / H1) an HTTP/1.1 connection on the HTTPS or the plain listener in the phases of `softstop` (part of the body sent, backend waiting, response in progress, Expect: 100-continue, idle keep-alive, client stalled under a 6..12 MB response [HTTPS: excluded, known finding]), 30% second on their connection; (TCP) a session through the TCP listener after a first exchange: the client's message (2..40000 bytes) at the backend which answers 100..800 ms after the stop, or half of it at the backend, the other half 0..300 ms and the answer 100..800 ms after the stop (bytes under way in both directions), or idle; (WS / WSS) an HTTP/1.1 connection (plain or TLS) upgraded with 101 and exchanging WebSocket frames in the same three shapes, or the upgrade request itself at the backend which answers 101 100..800 ms after the stop. Then SoftStop, or (35%) ReturnListenSockets + receive_listeners + SoftStop. Oracle: (1) every HTTP/1.1 request, HTTP/2 stream and upgrade request in flight at the stop gets the backend's status (200 / 101) and exact body, HTTP/2 with END_STREAM and no RST_STREAM; the backend got the exact request body once, on its cluster's backend; delays stay below 1 s, far inside the 5 s graceful deadline, so the deadline never excuses a cut; (1b) an HTTP/2 connection with a stream open at the stop receives at least one GOAWAY before it ends (for an idle connection both a GOAWAY and a bare close are admitted; whether the GOAWAY precedes the end of the last stream is measured, not judged); (1c) the stream opened after the acknowledgement may be served (then 200 and exact body), answered by another status, refused (RST_STREAM, any code, before it reached a backend), or left unanswered if it never reached a backend; once it reached a backend it must not be reset or dropped; (2) SoftStop: 0..n Processing, exactly one final Ok, not read before the last backend began to write the last piece of an in-flight HTTP response; (3) the worker thread ends within graceful deadline + 2 s of the moment the last session ended on its client's side (clients of opaque sessions hang up by themselves at most 1.5 s after the last scheduled byte); (4) after the first acknowledgement a new connection to any of the three listeners is refused or gets no byte back (HTTP request, TLS ClientHello, TCP bytes) and nothing of it reaches a backend; with a hand-over the three listeners come out of the SCM socket with their kind and address, accept, and are never refused; (5) no worker panic. (6) Opaque sessions (TCP, upgraded connections): the property speaks of requests, an opaque byte stream has none, and sozu documents that such a session is closed at once by a soft stop: closing it at the stop and relaying on are both admitted, as are FIN, RST or a TLS end without close_notify toward the client; demanded is only that each peer receives an exact prefix of what the other sent (nothing altered, duplicated or reordered) and that, when both peers see an orderly end (FIN / close_notify, no reset, no write error), every byte a peer had written before the SoftStop command was sent has arrived at the other (bytes written later may meet a session already closed and prove nothing). How each side saw the end is recorded as classes. A failure is re-run twice on fresh workers and reported only if it reproduces (else flaky_unconfirmed). Non-trivial: at least one session had an unfinished request / stream / pending answer when the stop was acknowledged."
 }
 
 /// child-process entry: run this shard's scenarios
